@@ -289,6 +289,46 @@ def ops(rng):
     add("quadric3.degenerate-intersect", lambda q, l: q.intersect(l), lambda: (plane_pair_or_cone(), line3()), tol=1e-6, nomix=True)
     add("conic.dual", lambda q: (q.dual, q.dual.dual), lambda: (circle_and_point()[0],))
     add("quadric.dual", lambda q: (q.dual, q.dual.dual), lambda: (sphere_and_point()[0],))
+    # polygons of the plane / of space against points: distance, angles, equality up to rolling (per element)
+    def quad2():
+        x0, y0, w, h = rng.randint(-3, 3), rng.randint(-3, 3), rng.randint(1, 4), rng.randint(1, 4)
+        sh = rng.randint(0, 2)
+        vs = [(x0, y0), (x0 + w, y0), (x0 + w + sh, y0 + h), (x0 + sh, y0 + h)]
+        return g.Polygon(*[g.Point(float(x), float(y)) for x, y in vs])
+    def roll(p, r):
+        return g.Polygon(np.roll(np.asarray(p.array), r, axis=0))
+    add("polygon.dist-point", lambda t, p: g.dist(t, p), lambda: (quad2(), pt2(1.0)))
+    add("triangle.dist-point", lambda t, p: g.dist(t, p), lambda: (tri(), pt2(1.0)))
+    add("polygon3.dist-point", lambda t, p: g.dist(t, p), lambda: (poly3()[0], pt3()))
+    add("polygon.angles", lambda t: list(t.angles), lambda: (quad2(),), modpi=True)
+    add("polygon.eq-rolled", lambda t, u: bool(np.all(t == u)), lambda: (lambda q: (q, rng.choice([roll(q, rng.randint(0, 3)), quad2()])))(quad2()), nomix=True, whole=True)
+    def seg3_pair():
+        # two segments of space: crossing in a point, coplanar but apart, or skew
+        a = np.array([float(rng.randint(-3, 3)) for _ in range(3)])
+        u = np.array([float(rng.randint(1, 3)), float(rng.randint(-2, 2)), 0.0])
+        v = np.array([float(rng.randint(-2, 2)), float(rng.randint(1, 3)), float(rng.randint(-1, 1))])
+        kind = rng.choice(["cross", "apart", "skew"])
+        P = lambda x: g.Point(*[float(c) for c in x])
+        s1 = g.Segment(P(a - u), P(a + u))
+        if kind == "cross":
+            s2 = g.Segment(P(a - v), P(a + 2 * v))
+        elif kind == "apart":
+            s2 = g.Segment(P(a + 3 * u + v), P(a + 3 * u + 2 * v))
+        else:
+            w = np.cross(u, v)
+            s2 = g.Segment(P(a + w - v), P(a + w + v))
+        return s1, s2
+    add("segment3.intersect-segment", lambda s, t: s.intersect(t), seg3_pair, nomix=True, flat=True, tol=1e-7)
+    def plane_pair():
+        while True:
+            e, f = plane3(), plane3()
+            if np.linalg.matrix_rank(np.stack([e.array, f.array])) == 2:
+                return e, f
+    def from_planes(e, f):
+        from geometer.curve import Quadric, QuadricCollection
+        return (QuadricCollection if (e.free_indices or f.free_indices) else Quadric).from_planes(e, f)
+    add("quadric.from_planes", from_planes, plane_pair, nomix=True)
+    add("polygon3.expand_dims-contains", lambda t, p: (t.expand_dims(0).contains(p) if t.free_indices else t.contains(p)), poly3, nomix=True, squeeze0=True)
     add("join-pp", lambda p, q: g.join(p, q), lambda: (lambda p: (p, g.Point(np.asarray(p.normalized_array) + np.array([1.0, rat(rng), 0.0]))))(pt2(1.0)))
     add("meet-ll", lambda l, m: g.meet(l, m), lambda: (lambda l: (l, g.Line(np.asarray(l.array) + np.array([1.0, -1.0, rat(rng)]))))(line2()))
     return T
@@ -296,7 +336,8 @@ def ops(rng):
 
 SHAPES = ["k", "1", "k1", "1k", "mixed", "mk", "mk1"]
 PERPENDICULAR_FAMILY = ("dist-pl2", "dist-pl3", "dist-pe3", "line.perpendicular", "line.project", "line.mirror", "line3.project",
-                        "plane.project", "plane.perpendicular", "plane.mirror", "polygon3.contains", "polygon3.area-then-contains")
+                        "plane.project", "plane.perpendicular", "plane.mirror", "polygon3.contains", "polygon3.area-then-contains",
+                        "polygon.dist-point", "triangle.dist-point", "polygon3.dist-point")
 
 
 def run(ctx, n, prefix="C04", only=None, patterns=None):
@@ -376,6 +417,21 @@ def run(ctx, n, prefix="C04", only=None, patterns=None):
         idxs = list(itertools.product(*[range(s) for s in shape]))
         tol = kw.get("tol", 1e-8)
         bad = None
+        if kw.get("flat"):
+            # the collection call returns one flat list: the union of the single-object lists
+            exp = [x for s_ in singles for x in (s_[1] if isinstance(s_[1], (list, tuple)) else [s_[1]])]
+            got = list(res[1]) if isinstance(res[1], (list, tuple)) else [res[1]]
+            if not same_value(got, exp, tol):
+                ctx.disagree(f"{prefix}:coll:{name}:{pattern}", desc, f"the {len(exp)} point(s) of the single calls: {str(exp)[:200]}", f"{len(got)} point(s): {str(got)[:200]}", replay=[desc])
+            continue
+        if kw.get("whole"):
+            # the collection call answers for the whole collection: the conjunction of the single answers
+            exp = all(bool(s_[1]) for s_ in singles)
+            if bool(res[1]) != exp:
+                ctx.disagree(f"{prefix}:coll:{name}:{pattern}", desc, f"{exp} (single answers {[bool(s_[1]) for s_ in singles]})", bool(res[1]), replay=[desc])
+            continue
+        if kw.get("squeeze0"):
+            res = (res[0], np.asarray(res[1])[0] if np.asarray(res[1]).ndim == len(shape) + 1 else res[1])
         for idx, s in zip(idxs, singles):
             try:
                 got = at(res[1], idx)
